@@ -3741,6 +3741,86 @@ class _DictFlows(ast.NodeTransformer):
         return node
 
 
+def _loops_over_generators(tree):
+    """g = (E for x in XS)  (a local bound once, read once)
+       for v in g: BODY        ->   for x in XS: v = E; BODY
+    (also with the generator written in the loop header): a lazy generator
+    computes E when the loop asks for it."""
+    n = 0
+    for fn in ast.walk(tree):
+        if not isinstance(fn, (ast.FunctionDef, ast.AsyncFunctionDef)):
+            continue
+        changed = True
+        while changed:
+            changed = False
+            stores, loads = {}, {}
+            for x in ast.walk(fn):
+                if isinstance(x, ast.Name):
+                    d = stores if isinstance(x.ctx, (ast.Store, ast.Del)) \
+                        else loads
+                    d[x.id] = d.get(x.id, 0) + 1
+            gens = {}
+            for st in ast.walk(fn):
+                if isinstance(st, ast.Assign) and len(st.targets) == 1 and \
+                        isinstance(st.targets[0], ast.Name) and \
+                        isinstance(st.value, ast.GeneratorExp) and \
+                        stores.get(st.targets[0].id) == 1 and \
+                        loads.get(st.targets[0].id) == 1:
+                    gens[st.targets[0].id] = st
+            for lp in ast.walk(fn):
+                if not isinstance(lp, ast.For) or lp.orelse:
+                    continue
+                g, holder = None, None
+                if isinstance(lp.iter, ast.GeneratorExp):
+                    g = lp.iter
+                elif isinstance(lp.iter, ast.Name) and lp.iter.id in gens:
+                    holder = gens[lp.iter.id]
+                    g = holder.value
+                if g is None or len(g.generators) != 1 or \
+                        g.generators[0].is_async:
+                    continue
+                c = g.generators[0]
+                inner = {x.id for x in ast.walk(c.target)
+                         if isinstance(x, ast.Name)}
+                body_names = {x.id for b in lp.body for x in ast.walk(b)
+                              if isinstance(x, ast.Name)} | {
+                    x.id for x in ast.walk(lp.target)
+                    if isinstance(x, ast.Name)}
+                if inner & body_names or any(
+                        stores.get(nm, 0) > 1 for nm in inner):
+                    continue
+                if holder is not None:
+                    # nothing between the definition and the loop may
+                    # change what the generator reads: same block, adjacent
+                    ok = False
+                    for blk in ast.walk(fn):
+                        for name in _BLOCKS:
+                            lst = getattr(blk, name, None)
+                            if isinstance(lst, list) and holder in lst and \
+                                    lp in lst and \
+                                    lst.index(lp) == lst.index(holder) + 1:
+                                lst.remove(holder)
+                                ok = True
+                    if not ok:
+                        continue
+                head = ast.copy_location(ast.Assign(
+                    targets=[lp.target], value=g.elt, lineno=lp.lineno), lp)
+                body = [head] + lp.body
+                for i_ in reversed(c.ifs):
+                    body = [ast.copy_location(
+                        ast.If(test=i_, body=body, orelse=[]), lp)]
+                tgt = copy.deepcopy(c.target)
+                for x in ast.walk(tgt):
+                    if isinstance(x, (ast.Name, ast.Tuple, ast.List)):
+                        x.ctx = ast.Store()
+                lp.target, lp.iter, lp.body = tgt, c.iter, body
+                ast.fix_missing_locations(fn)
+                n += 1
+                changed = True
+                break
+    return n
+
+
 class _BoolInTests(ast.NodeTransformer):
     """`if bool(x) and y:` is `if x and y:` -- bool() says nothing where
     only the truth of the value is looked at."""
@@ -3753,6 +3833,12 @@ class _BoolInTests(ast.NodeTransformer):
                 not e.keywords and not isinstance(e.args[0], ast.Starred):
             self.count += 1
             return self._strip(e.args[0])
+        if isinstance(e, ast.Call) and isinstance(e.func, ast.Name) and \
+                e.func.id == 'len' and len(e.args) == 1 and \
+                not e.keywords and isinstance(e.args[0], (ast.Name,
+                                                          ast.Attribute)):
+            self.count += 1         # `if len(xs):` is `if xs:`
+            return e.args[0]
         if isinstance(e, ast.BoolOp):
             e.values = [self._strip(v) for v in e.values]
         elif isinstance(e, ast.UnaryOp) and isinstance(e.op, ast.Not):
@@ -3774,6 +3860,7 @@ def desugar(trees):
     n += _local_records(trees)
     n += _local_dict_fields(trees)
     for t in trees.values():
+        n += _loops_over_generators(t)
         b = _BoolInTests()
         b.visit(t)
         n += b.count
